@@ -126,6 +126,7 @@ def explain (pkgs : List Pkg) (impl : Run) (implReasons : List Text) (r : Text) 
   let lof := fl.any fun f => match f with | .linkUntracked m => m == n | _ => false
   let thr := fl.any fun f => match f with | .throughLink m d => m == n || d == n | _ => false
   let anyThr := fl.any fun f => match f with | .throughLink _ _ => true | _ => false
+  let bk := fl.any fun f => match f with | .baseKept m => m == n | _ => false
   let ali := fl.any fun f => match f with | .alias _ => true | _ => false
   let dropped := impl.recs.any fun files => (droppedNames files).contains n
   let recOwner := (pkgs.zip impl.recs).any fun (_, files) => files.any fun e => e.name == n ∨ Formats.trimSuffixSlash e.name == n
@@ -135,7 +136,7 @@ def explain (pkgs : List Pkg) (impl : Run) (implReasons : List Text) (r : Text) 
   | "unrecorded" => if dropped then some "F07a" else if ali then some "F07g" else none
   | "stale" => if lof then some "F07c" else if thr then some "F07d" else if ali then some "F07g" else none
   | "stray" => if thr then some "F07d" else if ali then some "F07g" else none
-  | "multi" => if ali then some "F07g" else none
+  | "multi" => if ali then some "F07g" else if bk then some "F07i" else none
   | "owner" => if recOwner && implReasons.contains r then some "F07e" else none
   | "mode" => if implReasons.contains r then some "F07f" else none
   | _ => none
